@@ -18,13 +18,26 @@
   * **run level, URI port** (`port_value_exact`, `port_zero`, `port_numdone`, `port_meaning`; Proofs/UriLink.lean): for
     every URI accepted by ParseURI the reported port field consists of digits, PortNo is exactly their decimal value
     and ≤ 65535 (this is the statement that defect F20 violated).
-  NOT yet proved at run level: the Contact expires / q parameters as reported after a whole name-addr parse (their
-  accumulators are proved exact above); checked by the oracle against math/big.
+  * **run level, Contact expires / q** (`Sipsp.Proofs.NaNumRun`; ParseNameAddrPVal with its 33 states, any header kind,
+    any verdict, new and resumed objects): `nameaddr_numbers` — the numeric fields of the returned object (HasExpires,
+    Expires, Q, ParamErr, ErrOffs) are the left fold, over a list of parameter spans lying in the parsed text (name
+    non-empty, value after the name, for Contact only white space and one '=' in between), of the pure per-parameter
+    effect; `contact_expires_run` / `nameaddr_expires`: either no expires is reported, or there is an `expires`
+    parameter (any letter case) in the text and Expires = min(decimal value of its digit string, 2^32-1) for digit
+    strings of ANY length (`expires_any_text`: for an arbitrary value text it is the value of the leading digits — the
+    code ignores the conversion error there: `expires=12abc` gives 12, `expires=abc` gives 0; not a digit string, so
+    outside this property's domain, recorded as an observation); `contact_q_run`, `contact_q_flag_run`,
+    `nameaddr_q(_le)`, `q_any_text_cases`: Q ≤ 1000 always; Q is the thousandths value of the last accepted `q`
+    parameter of the text, every `q` text of another shape (more than three decimals, above 1, non-digits, 2^64
+    overflow) leaves Q untouched and sets the parameter-error indication; never a wrapped or truncated number.
+  NOT proved: completeness at run level (that EVERY expires / q parameter of the text is among the recorded spans) is
+  the grammar-level C09 theorem.
 -/
 import Sipsp.Proofs.Num
 import Sipsp.Proofs.NumRun
 import Sipsp.Model.Msg
 import Sipsp.Proofs.UriLink
+import Sipsp.Proofs.NaNumRun
 
 namespace Sipsp.C10
 open Sipsp
@@ -160,5 +173,56 @@ theorem port_numdone : type_of% @ul_port_numdone := @ul_port_numdone
 
 /-- spelled out with `Get` -/
 theorem port_meaning : type_of% @ul_port_meaning := @ul_port_meaning
+
+/-! ### run level: Contact expires / q after a whole ParseNameAddrPVal / ParseOneContact (proved in `Sipsp.Proofs.NaNumRun`) -/
+
+/-- **`expires` with ANY value text**: the has-expires flag is set and the number is the decimal value of the leading
+    digits of the text (all of it when it is a digit string; the empty string counts 0), saturated at 2^32-1.  No
+    length bound; never a wrapped value. -/
+theorem expires_any_text : type_of% @Sipsp.nr_setExpires_any := @Sipsp.nr_setExpires_any
+
+/-- **`setQ` on ANY text**: either the text is an accepted `q` value and `q` becomes exactly its value in thousandths,
+    or `q` is left alone and the parameter error is set (to something other than "no error") -/
+theorem q_any_text_cases : type_of% @Sipsp.nr_setQ_cases := @Sipsp.nr_setQ_cases
+
+/-- **ParseNameAddrPVal, any header kind, any buffer, any verdict**: if the object passed in satisfies the invariant
+    (a new object does, `nr_entry_new`; so does an object returned with MoreBytes), the numeric fields of the returned
+    object are the fold of `nrEffect` over a list of parameter spans lying in `[o, o')`; after MoreBytes the object
+    satisfies the invariant again. -/
+theorem nameaddr_numbers : type_of% @Sipsp.nr_parse := @Sipsp.nr_parse
+
+/-- **resumed call**: a call that asked for more bytes, followed by a call on the extended buffer from the returned
+    offset with the returned object (and so on: the hypothesis of the second call is the conclusion of the first) -/
+theorem nameaddr_numbers_resume : type_of% @Sipsp.nr_parse_resume := @Sipsp.nr_parse_resume
+
+/-- **C10 (a), run level, one call on a new object**: whatever the verdict, `HasExpires` is reported only when the
+    consumed text `[offs, o')` contains an `expires` parameter — name `[ps, pe)` matched case-insensitively, non-empty
+    value text `[vs, ve)` after it — and then `Expires` is the decimal value of the leading digits of that text (all of
+    it when the text is a digit string, of ANY length), saturated at 2^32-1; never a wrapped value. -/
+theorem nameaddr_expires : type_of% @Sipsp.nr_new_expires := @Sipsp.nr_new_expires
+
+/-- **C10 (b), run level, one call on a new object**: `Q` is 0 (never set) or EXACTLY the value in thousandths of the
+    text of a `q` parameter of the consumed input, the text being of an accepted shape (`NrQOk`) -/
+theorem nameaddr_q : type_of% @Sipsp.nr_new_q := @Sipsp.nr_new_q
+
+theorem nameaddr_q_le : type_of% @Sipsp.nr_new_q_le := @Sipsp.nr_new_q_le
+
+/-- **C10 (a) for one Contact value** (one call of `parseOneContact` = ParseNameAddrPVal(HdrContact, …) on a new
+    object, any buffer, any offset inside it, any verdict — in particular OK and MoreValues): if `HasExpires` is
+    reported there are offsets `offs ≤ ps < pe ≤ eq < vs < ve ≤ o' ≤ len(buf)` such that `buf[ps:pe]` is `expires` in
+    any letter case, `buf[pe:eq]` and `buf[eq+1:vs]` are white space, `buf[eq]` is `=`, and `Expires` is the decimal
+    value of the leading digits of `buf[vs:ve]` saturated at 2^32-1 — of all of `buf[vs:ve]` when it consists of
+    digits, whatever their number; otherwise `Expires` is 0. -/
+theorem contact_expires_run : type_of% @Sipsp.nr_contact_expires := @Sipsp.nr_contact_expires
+
+/-- **C10 (b) for one Contact value**: `Q` is 0 (never set) or exactly the value in thousandths of the text of a `q`
+    parameter (located as in `nr_contact_expires`) whose text has an accepted shape; in particular `Q ≤ 1000`. -/
+theorem contact_q_run : type_of% @Sipsp.nr_contact_q := @Sipsp.nr_contact_q
+
+/-- **C10 (b), the flag, for one Contact value**: there is a list `L` of parameter spans of the consumed text
+    (`NrSpanOk`), the numeric fields being the fold of `nrEffect` over it, such that `Q` is the value of the last `q`
+    parameter of `L` with an accepted text (0 if none), `ParamErr` is set when some `q` parameter of `L` has a rejected
+    text, and is not set otherwise. -/
+theorem contact_q_flag_run : type_of% @Sipsp.nr_contact_q_flag := @Sipsp.nr_contact_q_flag
 
 end Sipsp.C10
